@@ -154,8 +154,16 @@ def rand_size(rng: random.Random, limit, big: bool) -> int:
     return rng.choice(SIZES)
 
 
+# Archive base names (the file is <base>_dir.vpk or <base>.vpk; numbered archives are <base>_NNN.vpk). 'pak' is the default when
+# a case does not name one. The others end in characters of the '_dir'/'.vpk' suffixes or contain them, so that a prefix derived
+# by character stripping instead of suffix removal (seeded fault c13_1) sends reads to another archive file than writes.
+BASES = ['pak', 'world', 'sound', 'pak01', 'did', 'r', 'a_dir', 'x.vpk', 'mod_', 'Dir', 'vpk']
+
+
 def gen_case(rng: random.Random, big: bool = False, nops: int | None = None, small: bool = False) -> dict:
     cfg = {'dir': rng.random() < 0.75, 'limit': rng.choice(LIMITS)}
+    if rng.random() < 0.5:      # the archive's own file name: prefixes that end in characters of '_dir', contain '_dir' or '.vpk'
+        cfg['base'] = rng.choice(BASES)
     if big:
         cfg['limit'] = rng.choice([None, 0, 1024, 70000, 65535])
     if small:       # for in-Coq evaluation: sizes stay around small limits
@@ -294,7 +302,8 @@ def run_impl(case: dict, want_files: bool = False) -> dict:
     from srctools.vpk import VPK
     cfg = case['cfg']
     d = tempfile.mkdtemp(prefix='c13_', dir=os.environ.get('VERIF_SCRATCH', '/var/tmp'))
-    fname = 'pak_dir.vpk' if cfg['dir'] else 'pak.vpk'
+    base = cfg.get('base', 'pak')
+    fname = base + ('_dir.vpk' if cfg['dir'] else '.vpk')
     path = os.path.join(d, fname)
     steps = []
     try:
@@ -327,7 +336,7 @@ def run_impl(case: dict, want_files: bool = False) -> dict:
             res['disk'] = f.read()
         ars = {}
         for fn in os.listdir(d):
-            m = re.fullmatch(r'pak_(-?\d+)\.vpk', fn)
+            m = re.fullmatch(re.escape(base) + r'_(-?\d+)\.vpk', fn)
             if m:
                 with open(os.path.join(d, fn), 'rb') as f:
                     ars[int(m.group(1))] = f.read()
@@ -441,6 +450,10 @@ CORPUS = [
     {'cfg': {'dir': True, 'limit': 70000}, 'ops': [('add', 'a/b.txt', '3', (1, 69000), 3), ('save',), ('reopen', 'r')]},
     # unrepresentable archive indexes and names
     {'cfg': {'dir': True, 'limit': 4}, 'ops': [('add', 'a/b.txt', 's', (1, 9), 32767), ('save',), ('reopen', 'r')]},
+    # archive file names whose prefix ends in characters of '_dir' / contains the suffixes (numbered archive must be found again)
+    {'cfg': {'dir': True, 'limit': 4, 'base': 'world'}, 'ops': [('add', 'a/b.txt', 's', (1, 9), 0), ('save',), ('reopen', 'r')]},
+    {'cfg': {'dir': True, 'limit': 4, 'base': 'a_dir'}, 'ops': [('add', 'a/b.txt', 's', (1, 9), 1), ('save',), ('reopen', 'a')]},
+    {'cfg': {'dir': False, 'limit': 4, 'base': 'x.vpk'}, 'ops': [('add', 'a/b.txt', 's', (1, 9), 0), ('save',), ('reopen', 'r')]},
     {'cfg': {'dir': True, 'limit': 4}, 'ops': [('add', 'k.t', 's', (1, 2), 0), ('save',), ('add', 'a/b.txt', 's', (1, 9), 65536), ('save',), ('reopen', 'r')]},
     {'cfg': {'dir': True, 'limit': 4}, 'ops': [('add', ' /b.txt', 's', (1, 2), 0), ('add', 'b.txt', 's', (2, 2), 0), ('save',), ('reopen', 'r')]},
     {'cfg': {'dir': True, 'limit': 4}, 'ops': [('add', 'a/b\x00c.txt', 's', (1, 2), 0), ('save',), ('reopen', 'r')]},
